@@ -28,10 +28,15 @@ func setupC11Hub(x *Ctx) {
 	}
 	if x.Chance("cut-at-register", 0.12) {
 		k := 1 + x.Choose("cut-at-register-k", 4)
+		stall := x.Chance("stall-at-register", 0.5)
 		r.atRegister = func(node string, n int) {
 			if n == k {
 				x.Probe("cut-at-register")
 				r.cutNewest(node)
+				if stall {
+					// the registering goroutine is descheduled for a moment
+					simrt.Sleep(time.Millisecond)
+				}
 			}
 		}
 	}
